@@ -811,6 +811,7 @@ static void drive(const vh::Lines &ls, const char *who) {
 #include "tuple_part.hpp"
 #include "il_part.hpp"
 #include "throw_part.hpp"
+#include "tp_part.hpp"
 
 static void body(const vh::Lines &ls) {
 	ev_reset_all();
@@ -829,6 +830,7 @@ static void body(const vh::Lines &ls) {
 	else if(ty == "tup") { if(k == 'M') tuple_case<KM>(ls); else if(k == 'C') tuple_case<KC>(ls); else tuple_case<KF>(ls); }
 	else if(ty == "il") il_case(ls);
 	else if(ty == "thr") thr_case(ls);
+	else if(ty == "tp") tp_case(ls);
 	else printf("badtype\n");
 }
 
